@@ -68,6 +68,22 @@ CLAIMED = {
    text="Resolution is specified as a plan (ordered read requests) and an outcome; TLC checks the plan laws over all small configurations (16 values x directory lists x every absent/valid/malformed/unreadable assignment, with decoy files at every path a wrong reading would open) and each configuration is executed through TimeZoneSettings::new(dirs, recording_read_fn); the recorded request sequence, the outcome kind (zone / I/O error / decoding error) and the zone are validated by TLC, also on seeded larger configurations.",
    note="Non-UNIX cfg branches are not built here.",
    tech="TLA+ spec (Resolve) + TLC model checking + TLC trace validation"),
+ "C10": dict(cat="other", ref="§C10",
+   text="Differential conformance of three implementations to one specification: glibc (time.tzset/localtime with TZ=:/file; right/ files at the leap count) and CPython zoneinfo observations of the vendored tzdata 2025b files are logged next to the crate's own lookups and searches, and TLC validates every observation of every implementation against TypeAt / ValidInstants of the zone decoded from the file (transitions -1/0/+1, seeded instants 1900-2500, footer-governed years; mktime: the instants each reference implies must equal the specification's set). POSIX TZ strings are checked against glibc's TZ parser the same way.",
+   note="Quick: 48 files; thorough: all 894. Instants at or after the last transition of a zone with an empty footer are outside the comparison (C03 defines that outcome). zoneinfo is limited to years 1..9999 and has no DST flag.",
+   tech="TLA+ trace validation of tz-rs, glibc and CPython zoneinfo observations against the same spec"),
+ "C15": dict(cat="other", ref="§C15",
+   text="Threads.tla: TLC explores every interleaving of 3 threads x 2-3 calls of the faithful library (responses are functions of arguments and immutable shared zones; no action touches a shared cell) and is required to find the torn read when a shared cache is added. The 'no cell' premise is bound to the code by a token-level scan of src/ and Cargo.toml whose facts TLC judges against the allowed set (SystemTime::now in utils/system_time.rs, std::fs as the default read function), compile-time auto-trait assertions for 19 public types, the deterministic workload on 2..64 threads sharing the same zones (each thread's result must equal the sequential, TLC-validated one) and a rerun of the environment-facing calls with TZ/TZDIR/LC_ALL/HOME changed.",
+   note="Interleavings are exhaustive in the model and sampled in the real code; the scan is syntactic (state hidden behind a macro the scan does not list would be missed).",
+   tech="TLA+ model of concurrent clients (TLC) + static footprint facts and threaded traces validated by TLC"),
+ "C19": dict(cat="exploration", ref="§C19",
+   text="The harness is built three times against tz-rs with features {}, {alloc}, {alloc,std} (a configuration that does not build is the violation); the same deterministic workload restricted to the allocation-free API (constructors, gmtime/timegm, nanoseconds, rendering, rules, zones incl. real tzdata zones passed as constructor arguments, lookups, buffer-based searches) must give byte-identical recordings, and the no-alloc recording is validated event by event by TLC against the specification.",
+   note="Configurations x the deterministic corpus, no more.",
+   tech="three feature builds + identical recordings + TLC trace validation"),
+ "C07": dict(cat="exploration", ref="§C07",
+   text="Hostile inputs generated from the specification's structure (every truncation and single-byte corruption of TLA+-encoded files; header counts up to 2^32-1; extreme 64-bit times; mutations of real tzdata files; random and grammar-shaped byte strings incl. non-UTF-8; zones, rules, lookups, searches, nanosecond counts, projections, renderings at i64/i32/i128 extremes) run under catch_unwind in a build with overflow checks and debug assertions and in a release build, with peak allocation of the crate call measured, the process watched for aborts and hangs, the two profiles compared, and every outcome validated by TLC as one the specification admits.",
+   note="Exploration guided by the spec's structure, not exhaustive and without coverage feedback. 64-bit usize only.",
+   tech="spec-guided hostile input generation + panic/abort/allocation monitors + TLC trace validation"),
 }
 
 NOT_YET = "check not built yet in this round (planned in DESIGN.md §3); not claimed until it exists and is green"
